@@ -50,9 +50,9 @@ func VerifC14HeapText() {
 	var recs []rec
 	for i := 0; i < nrec; i++ {
 		t := "r" + strconv.Itoa(i)
-		if vChoice(t+"pre", 3) == 1 {
+		if pre := vChoice(t+"pre", vBound("c14t.pre", 3)); pre == 1 {
 			doc += "# comment\n"
-		} else if vChoice(t+"pre", 3) == 2 {
+		} else if pre == 2 {
 			doc += "\n"
 		}
 		cs, c := vDigitsP(t+"c", nd)
@@ -68,7 +68,10 @@ func VerifC14HeapText() {
 			vAssume(vImplies(s == 0, c == 0))
 			vAssume(vImplies(as == 0, ac == 0))
 		}
-		na := vChoice(t+"naddr", 3)
+		na := 2 - vChoice(t+"naddr", vBound("c14t.naddr", 3)) // 2, 1, (-> 0 with the full bound)
+		if na < 0 {
+			na = 0
+		}
 		line := "  " + cs + ": " + ss + " [ " + acs + ": " + ass + "] @"
 		r := rec{c: c, s: s, ac: ac, as: as}
 		for j := 0; j < na; j++ {
@@ -306,12 +309,13 @@ func VerifC14ContentionText() {
 		wantPeriod = period
 	}
 	var wantDur int64
-	if vChoice("ms", 2) == 1 {
+	extra := vChoice("extra", vBound("c14t.extra", 4)) // 0 none, 1 ms, 2 ms + discarded, 3 discarded
+	if extra == 1 || extra == 2 {
 		ms, msv := vDigitsP("ms", nd)
 		doc += "ms since reset = " + ms + "\n"
 		wantDur = msv * 1000 * 1000
 	}
-	if vChoice("discarded", 2) == 1 {
+	if extra >= 2 {
 		doc += "discarded samples = 0\n"
 	}
 	nrec := 1 + vChoice("records", vBound("c14t.records", 2))
